@@ -132,6 +132,8 @@ type vBed struct {
 	extent   map[string][2]int64 // per "shard|series": min/max timestamp ever written since it was last empty
 	// uncertainTypes: "shard#measurement" whose field definitions may or may not have been dropped
 	uncertainTypes map[string]bool
+	// confirmed: type keys whose type the shard certainly holds (see resetEmptyMeasurements)
+	confirmed map[string]bool
 }
 
 const vDB, vRP = "db", "rp"
@@ -191,7 +193,14 @@ func vNewBed(root, idx string, nshards int) (*vBed, error) {
 }
 
 func (b *vBed) shardDir(id uint64) string {
+	if sh := b.store.Shard(id); sh != nil {
+		return filepath.Join(b.root, "data", vDB, sh.RetentionPolicy(), fmt.Sprint(id))
+	}
 	return filepath.Join(b.root, "data", vDB, vRP, fmt.Sprint(id))
+}
+
+func (b *vBed) shardDirRP(rp string, id uint64) string {
+	return filepath.Join(b.root, "data", vDB, rp, fmt.Sprint(id))
 }
 
 func (b *vBed) walDir(id uint64) string {
@@ -256,7 +265,7 @@ func vTypeKey(shard uint64, m, f string) string { return fmt.Sprintf("%d#%s#%s",
 // already has in the shard according to the model.
 func (b *vBed) conflicts(shard uint64, p vPt) bool {
 	for f, v := range p.Fields {
-		if t, ok := b.types[vTypeKey(shard, p.M, f)]; ok && t != v.T {
+		if t, ok := b.types[vTypeKey(shard, p.M, f)]; ok && t != v.T && b.confirmed[vTypeKey(shard, p.M, f)] {
 			return true
 		}
 	}
@@ -270,10 +279,14 @@ func (b *vBed) applyWrite(shard uint64, pts []vPt) (dropped int) {
 	for k, v := range b.types {
 		pre[k] = v
 	}
+	preConfirmed := map[string]bool{}
+	for k := range b.confirmed {
+		preConfirmed[k] = true
+	}
 	for _, p := range pts {
 		bad := false
 		for f, v := range p.Fields {
-			if t, ok := pre[vTypeKey(shard, p.M, f)]; ok && t != v.T {
+			if t, ok := pre[vTypeKey(shard, p.M, f)]; ok && t != v.T && preConfirmed[vTypeKey(shard, p.M, f)] {
 				bad = true
 			}
 		}
@@ -285,6 +298,10 @@ func (b *vBed) applyWrite(shard uint64, pts []vPt) (dropped int) {
 		b.noteExtent(shard, s, p.TS)
 		for f, v := range p.Fields {
 			b.types[vTypeKey(shard, p.M, f)] = v.T
+			if b.confirmed == nil {
+				b.confirmed = map[string]bool{}
+			}
+			b.confirmed[vTypeKey(shard, p.M, f)] = true
 			b.model[vKey{shard, s, f, p.TS}] = v
 		}
 	}
@@ -546,42 +563,32 @@ func (b *vBed) applyDropMeasurement(m string) {
 			delete(b.model, k)
 		}
 	}
+	// DROP MEASUREMENT removes the measurement and its field definitions from every shard
+	for tk := range b.types {
+		if strings.SplitN(tk, "#", 3)[1] == m {
+			delete(b.types, tk)
+		}
+	}
 	b.resetEmptyMeasurements()
 }
 
-// resetEmptyMeasurements forgets the field types of (shard, measurement) pairs without any
-// model point: once the last series of a measurement is gone the shard drops the measurement
-// and with it the field definitions.
+// resetEmptyMeasurements: when a (shard, measurement) pair has no model point left the shard MAY have
+// dropped the measurement and its field definitions - or not (the database-wide inmem index keeps a
+// measurement that is alive in another shard; series created for points that were rejected keep it alive;
+// an emptied series may linger, see the known findings). The model therefore keeps the old types as hints
+// (the generator goes on writing them, which is accepted in both cases) but un-confirms them: a field is
+// used for deliberate type conflicts only while confirmed, i.e. after a write carrying it was accepted
+// since the pair was last empty.
 func (b *vBed) resetEmptyMeasurements() {
 	alive := map[string]bool{}
 	for k := range b.model {
 		name, _ := models.ParseKey([]byte(k.Series))
 		alive[fmt.Sprintf("%d#%s", k.Shard, name)] = true
 	}
-	lingerM := map[string]bool{}
-	for s := range b.lingerOK {
-		name, _ := models.ParseKey([]byte(s))
-		lingerM[name] = true
-	}
-	// with the database-wide inmem index a measurement that is empty in this shard but alive in another
-	// shard is not dropped, so this shard keeps its field definitions: treat that as uncertain too
-	for k := range alive {
-		lingerM[k[strings.Index(k, "#")+1:]] = true
-	}
 	for tk := range b.types {
 		parts := strings.SplitN(tk, "#", 3)
 		if !alive[parts[0]+"#"+parts[1]] {
-			if lingerM[parts[1]] {
-				// the emptied series may still be listed (known finding), in which case the shard keeps the
-				// measurement and its field types: keep generating the old types and never use this
-				// measurement for deliberate type conflicts
-				if b.uncertainTypes == nil {
-					b.uncertainTypes = map[string]bool{}
-				}
-				b.uncertainTypes[parts[0]+"#"+parts[1]] = true
-				continue
-			}
-			delete(b.types, tk)
+			delete(b.confirmed, tk)
 		}
 	}
 }
